@@ -269,7 +269,9 @@ def _simplify_doc():
     gb = El("g", {"fill": "green", "data-name": "layer"}, [p5], name="gb")
     rect = El("rect", {"x": "1", "width": "2", "height": "3", "fill": "url(#g1)", "transform": "tR", "id": "R"}, name="R")
     p6 = El("path", {"d": pd(("M", (7, 7)), ("L", (8, 8))), "fill": "url(#g2)", "id": "p6"}, name="p6")
-    root = El("svg", {"viewBox": "0 0 10 10", "fill": "red", "stroke-linecap": "round", "overflow": "visible"}, [defs, ga, gb, rect, p6], name="root")
+    # a point-sized path: with the (inherited) round cap its stroke is a dot
+    dot = El("path", {"d": pd(("M", (15, 15)), ("L", (15, 15))), "stroke": "green", "stroke-width": "2", "id": "dot"}, name="dot")
+    root = El("svg", {"viewBox": "0 0 10 10", "fill": "red", "stroke-linecap": "round", "overflow": "visible"}, [defs, ga, gb, rect, p6, dot], name="root")
     return root
 
 
@@ -515,6 +517,9 @@ def _check_doc1(root, P):
                 P("stroke-args", f"the stroke piece is filled with {n.attrib.get('fill')}, the stroke paint is blue")
         if n.parent is None or n.parent.local() != "g":
             P("document-order", "a piece of the stroked path left its group")
+    dots = [n for n in find("(15, 15)") if pieces[id(n)].stroke is not None]
+    if len(dots) != 1:
+        P("stroke-order", f"the point-sized stroked path (round cap: a dot) yields {len(dots)} stroke pieces (1 expected)")
     if fillp and strokep:
         sib = [c for c in fillp[0].parent.children]
         if fillp[0].parent is not strokep[0].parent or sib.index(fillp[0]) > sib.index(strokep[0]):
@@ -530,8 +535,9 @@ def _check_doc1(root, P):
         if seq not in (["p1", "p2-fill", "p2-stroke"], ["p1", "p2-stroke"]):
             P("document-order", f"children of the kept group are {seq}; document order is p1, fill piece of p2, stroke piece of p2")
     top = [str(c.attrib.get("id", c.local())) for c in root.children if isinstance(c.tag, str)]
-    if len(top) != 5 or top[0] != "defs" or root.children[1].local() != "g" or top[2:] != ["p5", "R", "p6"]:
-        P("document-order", f"top-level order is {top}; expected defs, the kept group, p5, R, p6")
+    tail = [c for c in root.children if isinstance(c.tag, str)][5:]
+    if len(top) < 5 or top[0] != "defs" or root.children[1].local() != "g" or top[2:5] != ["p5", "R", "p6"] or not tail or any("15" not in pieces[id(c)].base_text() for c in tail if id(c) in pieces):
+        P("document-order", f"top-level order is {top}; expected defs, the kept group, p5, R, p6, the piece(s) of the dot")
     p5 = [n for n in shapes if n.attrib.get("id") == "p5"]
     if len(p5) == 1 and p5[0].attrib.get("fill") != "green":
         P("structure", f"p5 lost the fill inherited from its flattened group (fill={p5[0].attrib.get('fill')})")
